@@ -236,6 +236,9 @@ class Ref:
                 out |= self.recognize(n, m)
             if bool in out and self.buf in out:
                 out.discard(self.buf)
+            # an explicit tag naming one of several remaining candidates selects it, whatever kind the others are
+            if len(out) > 1 and n[1] in self.byname and self.byname[n[1]] in out:
+                return {self.byname[n[1]]}
             return out
         if self.is_seq(T):
             if n[0] != 'q':
@@ -298,6 +301,9 @@ class Ref:
                 Tg = self.byname[tag]
                 return {Tg} if Tg in match else set()
             return set()
+        # a core tag that contradicts the kind of node names an incompatible type ('!!int {a: 1}')
+        if (n[0] == 'm' and tag != P + 'map') or (n[0] == 'q' and tag != P + 'seq'):
+            return set()
         return most
 
     def own_match(self, n, C):
@@ -341,7 +347,7 @@ class Ref:
         if k == 'require_attr':
             if n[0] != 'm':
                 return False
-            vs = [b for a, b in n[2] if a[2] == op[1]]
+            vs = [b for a, b in n[2] if a[0] == 's' and a[1] == P + 'str' and a[2] == op[1]]
             if not vs:
                 return False
             if len(op) > 2:
